@@ -239,8 +239,10 @@ def run(ctx):
             cfgdesc = {"def": dd.describe(), "kind": kind, "cse": cse, "noise": {k: str(v) for k, v in process.items()},
                        "max_dt_sec": max_dt, "innovation_filtering": filt}
             try:
+                variant = {"config_as_dict": ctx.rng.random() < 0.4, "noise_keys": "symbol" if ctx.rng.random() < 0.4 else "same"}
+                cfgdesc["entry_variant"] = dict(variant)
                 g = cppgen.generate(dd, process, sensor, cal, ctx.scratch, f"u{i}{kind[0]}", cse=cse, kind=kind, rng=ctx.rng,
-                                    container=ctx.rng.choice(["set", "list"]), max_dt=max_dt, filtering=filt)
+                                    container=ctx.rng.choice(["set", "list"]), max_dt=max_dt, filtering=filt, **variant)
             except Exception as e:
                 ctx.fail(f"cpp-generate-raises:{kind}:{fk.exc_kind(e)}", f"C++ generation refuses a valid definition: {e!r}"[:300], cfgdesc)
                 continue
